@@ -10,7 +10,7 @@ import copy
 import json
 
 from harness.core import (MachineryError, model_check, read_events, require, run_driver, seed, selftest_trace,
-                          spec_mutant, validate_trace, work_dir)
+                          spec_mutant, tlc, validate_trace, work_dir)
 
 TSPEC = "C01_KernelTrace"
 
@@ -51,13 +51,24 @@ def run(rep, tier):
                     [("lib/Kernel.tla", "ImpliesIntr(A, th) == Sq(th.h \\ {A}, Imp(A, th.c))",
                       "ImpliesIntr(A, th) == Sq(th.h \\ {A}, th.c)")], ["AllValid", "NoFalse"], wd=wd, workers=1,
                     env={"VECTOR_FILE": wd / "mutant_vectors.ndjson"})
+    # second machine: derivations as sequences of steps; exhaustive for 2 steps, simulated deep ones
+    rd = model_check("C01_Derive", "C01_Derive_small.cfg", wd=wd / "mc", workers=4, timeout=7200)
+    rep.add_mc("C01_Derive(all derivations of 2 steps)", rd, "MaxLen=2")
+    if rd.violated:
+        rep.design_violation("C01_Derive", rd)
+        return
+    rs = tlc("C01_Derive", "C01_Derive_sim.cfg", wd=wd / "mc", simulate="num=%d" % (40 if quick else 1500), depth=12, seed_=seed() + 1, timeout=7200)
+    require(rs.rc == 0, "C01_Derive simulation failed: %s %s" % (rs.violated, rs.error))
+    (wd / "derive.log").write_text(rd.out + "\n" + rs.out)
+    ev3 = wd / "derivs.ndjson"
+    run_driver("c01", ["derivs", wd / "derive.log", ev3])
     # spec -> code
     ev1 = wd / "replay.ndjson"
     run_driver("c01", ["replay", vec, ev1])
     # code-driven walk
     ev2 = wd / "walk.ndjson"
     run_driver("c01", ["walk", 3000 if quick else 40000, ev2, seed()])
-    for name, path in (("replay", ev1), ("walk", ev2)):
+    for name, path in (("replay", ev1), ("walk", ev2), ("derivations", ev3)):
         evs = read_events(path)
         v = validate_trace(TSPEC, path, wd=wd / ("tv_" + name), nchunks=1 if quick else None)
         rep.add_trace_result(name, evs, v)
@@ -73,6 +84,7 @@ def run(rep, tier):
                         bad.append(c)
             selftest_trace(rep, TSPEC, bad, "Valid", wd=wd)
     acc = rep.notes["traces"]
+    require(acc["derivations"]["nontrivial"] >= 500, "C01: too few whole derivations accepted by the checker")
     require(acc["replay"]["nontrivial"] >= 500 and acc["walk"]["nontrivial"] >= 300, "C01: too few examined accepted steps (vacuity guard)")
 
 
